@@ -33,6 +33,7 @@ def names_in_expr(e: ast.AST) -> set[str]:
 
 def run(chk: Check, eng: Engine) -> None:
     chk.rule("R04-e", "scanner leaves carry text sliced from the input word, and the Earley column advance equals the consumed length times the columns-per-byte constant", floor=10)
+    chk.rule("R04-f", "in complete mode Terminal.check accepts only on a complete (non-partial) match", floor=1)
     chk.rule("R04-a", "the public parse API yields only trees for which every constraint's check() is true", floor=2)
     chk.rule("R04-b", "trees leave the parser only through collapse() unless control-flow nodes were asked for; helper-symbol prefixes agree between writers and reader", floor=12)
     chk.rule("R04-c", "an exception raised while checking a constraint rejects the input", floor=3)
@@ -289,6 +290,44 @@ def run(chk: Check, eng: Engine) -> None:
                 chk.bad("R04-e", eng.relfile(sm), a.line, sm.fq, f"{sname}: column advance `{short(idx)}` does not match the consumed text ({detail})",
                         "the parser continues at a position that does not correspond to the text put into the tree: yielded trees do not spell the input", keyparts=f"advance-mismatch|{sname}")
 
+    # ---- R04-f ---------------------------------------------------------------
+    term = eng.cls("fandango.language.symbols.terminal", "Terminal")
+    tchk = eng.method(term, "check", inherited=False)
+    tcfg = eng.cfg(tchk)
+    trd = ReachingDefs(tcfg, tchk.params())
+    prune = set()
+    for g in tcfg.nodes:
+        if g.kind == "if":
+            t = g.ast.test  # type: ignore[union-attr]
+            if isinstance(t, ast.Name) and t.id == "incomplete":
+                prune.add((g.id, "true"))
+            elif isinstance(t, ast.UnaryOp) and isinstance(t.op, ast.Not) and isinstance(t.operand, ast.Name) and t.operand.id == "incomplete":
+                prune.add((g.id, "false"))
+    if not prune:
+        raise AnalysisError("Terminal.check: no branch on `incomplete` found")
+    complete_reach = tcfg.reach([tcfg.entry], ignore_edges=prune)
+    n_ret = 0
+    for n in tcfg.nodes:
+        if n.id in complete_reach and n.kind == "stmt" and isinstance(n.ast, ast.Return) and isinstance(n.ast.value, ast.Tuple) and n.ast.value.elts \
+                and isinstance(n.ast.value.elts[0], ast.Constant) and n.ast.value.elts[0].value is True:
+            used = {x.id for x in ast.walk(n.ast.value) if isinstance(x, ast.Name)}
+            partial_defs = []
+            for nm in used:
+                for d in trd.defs_reaching(n.id, nm):
+                    v = trd.def_value(d, nm)
+                    if isinstance(v, ast.Call) and any(k.arg == "partial" and isinstance(k.value, ast.Constant) and k.value.value is True for k in v.keywords):
+                        partial_defs.append((nm, tcfg.nodes[d]))
+            n_ret += 1
+            if partial_defs:
+                nm, dn = partial_defs[0]
+                chk.bad("R04-f", eng.relfile(tchk), n.line, tchk.fq, f"in complete mode `{n.text()}` reports a match obtained with `{short(dn.ast, 60)}` (partial=True)",
+                        "a partial regex match (the input ends in the middle of what the pattern needs) is taken for a complete one: inputs outside the "
+                        "language are accepted and the tree's leaf does not match the terminal", keyparts="complete-uses-partial")
+            else:
+                chk.ok("R04-f", tchk.fq, n.line, f"complete-mode acceptance `{n.text()}` does not rest on a partial match")
+    if n_ret == 0:
+        raise AnalysisError("Terminal.check: no accepting return reachable in complete mode")
+
     # ---- R04-d ---------------------------------------------------------------
     gp = eng.cls("fandango.language.parse.convert", "GrammarProcessor")
     fam = {c.name: c for c in node_base.family()}
@@ -325,6 +364,7 @@ _IP = "src/fandango/language/grammar/parser/iterative_parser.py"
 _R = "src/fandango/language/grammar/nodes/repetition.py"
 _CMP = "src/fandango/constraints/comparison.py"
 MUTANTS = [
+    M("complete-check-partial-regex", "src/fandango/language/symbols/terminal.py", "                match = re.match(symbol, check_word)  # type: ignore", "                match = regex.compile(symbol).match(check_word, partial=True)  # type: ignore", "R04-f"),
     M("regex-leaf-uses-offset-before-reset", _IP, "            tree = ParserDerivationTree(Terminal(check_word[:match_length]))\n            if state.is_incomplete:\n                next_state.children[-1] = tree\n            else:\n                next_state.append_child(tree)\n            table[\n                k + ((table_offset - state.incomplete_idx) * table_idx_multiplier)\n            ].add(next_state)",
       "            tree = ParserDerivationTree(Terminal(check_word[:match_length]))\n            if state.is_incomplete:\n                next_state.children[-1] = tree\n            else:\n                next_state.append_child(tree)\n            table[\n                k + ((incomplete_table_offset - state.incomplete_idx) * table_idx_multiplier)\n            ].add(next_state)", "R04-e"),
     M("bytes-leaf-from-grammar-literal", _IP, "        else:\n            next_state = state.next()\n            next_state.is_incomplete = False\n            next_state.incomplete_idx = 0\n            tree = ParserDerivationTree(Terminal(check_word[:match_length]))",
